@@ -4,7 +4,7 @@ from __future__ import annotations
 
 from typing import Any, Dict, List, Optional, Set
 
-from .gprog import GProg
+from .gprog import GProg, kw_items
 from .harness import Tok
 
 
@@ -113,7 +113,7 @@ class View:
             return None
 
         a = tuple(val(e) for e in n.edges if e.kind == "pos") + tuple(n.consts)
-        kw = {(f"k{e.src}" if e.src >= 0 else f"p{-1 - e.src}"): val(e) for e in n.edges if e.kind == "kw"}
+        kw = {name: val(e) for name, e in kw_items(n)}
         return a, kw
 
     def ref_param(self, k: int):
